@@ -205,6 +205,8 @@ DEASYNC_RULES = [
 HASHMAP_RULES = [
     (r"\buse\s+std::collections::HashMap\s*;", "use crate::verif_map::HashMap;"),
     (r"\bstd::collections::HashMap\b", "crate::verif_map::HashMap"),
+    # `std::collections::hash_map::Entry` and friends live next to the map shim
+    (r"\bstd::collections::hash_map::", "crate::verif_map::"),
 ]
 
 
